@@ -335,7 +335,33 @@ func vlq(n uint32) []byte {
 	return out
 }
 
+// canonicalMeta: a meta event of the exact size its type prescribes, with the values a reader might treat specially
+// (tempo 0 = infinitely fast, the slowest tempo, a few values that repeat from call to call; zero denominators and
+// clocks; key signatures beyond seven accidentals; sequence numbers with and without payload)
+func canonicalMeta(r *Rng) []byte {
+	switch r.Intn(7) {
+	case 0, 1:
+		v := r.Pick(0, 0, 1, 500000, 500000, 0x07A120, 0xFFFFFF, 0x800000, r.Intn(1<<24))
+		return []byte{0xFF, 0x51, 0x03, byte(v >> 16), byte(v >> 8), byte(v)}
+	case 2:
+		return []byte{0xFF, 0x58, 0x04, byte(r.Pick(0, 1, 4, 6, 255)), byte(r.Pick(0, 1, 2, 3, 7, 8, 255)), byte(r.Pick(0, 8, 24, 255)), byte(r.Pick(0, 8, 255))}
+	case 3:
+		return []byte{0xFF, 0x59, 0x02, byte(r.Pick(0, 1, 7, 8, 0x7F, 0x80, 0x81, 0xF9, 0xFF)), byte(r.Pick(0, 1, 1, 2, 255))}
+	case 4:
+		return []byte{0xFF, 0x54, 0x05, byte(r.Pick(0, 23, 0x20, 0x40, 0x60, 255)), byte(r.Intn(256)), byte(r.Intn(256)), byte(r.Pick(0, 24, 29, 255)), byte(r.Pick(0, 99, 100, 255))}
+	case 5:
+		if r.Bool() {
+			return []byte{0xFF, 0x00, 0x00}
+		}
+		return []byte{0xFF, 0x00, 0x02, byte(r.Pick(0, 1, 255)), byte(r.Pick(0, 1, 255))}
+	}
+	return []byte{0xFF, byte(r.Pick(0x20, 0x21)), 0x01, byte(r.Pick(0, 1, 15, 16, 127, 128, 255))}
+}
+
 func genMetaMsg(r *Rng, tier string) []byte {
+	if r.Chance(1, 3) {
+		return canonicalMeta(r)
+	}
 	typ := byte(r.Intn(256))
 	if r.Chance(1, 2) {
 		typ = []byte{0x00, 0x01, 0x02, 0x03, 0x04, 0x05, 0x06, 0x07, 0x08, 0x09, 0x20, 0x21, 0x51, 0x54, 0x58, 0x59, 0x7F, 0x2E, 0x30}[r.Intn(19)]
